@@ -328,7 +328,7 @@ def dist_key(c):
 
 
 def run(ctx, out, replay=None):
-    n = 1300 if ctx.quick() else 10000
+    n = 1200 if ctx.quick() else 10000
     out.rule = ("(a) catalogue: on documents holding every kind of module, every boundary instance of every listed defect "
                 "class (harness/props/netlist_boundary.py: zeros of every spelling, False, the smallest negative floats, an "
                 "area equal to the rectangles' on a hard module - number, ground mapping, split over regions, one ulp-ish "
@@ -343,7 +343,7 @@ def run(ctx, out, replay=None):
                 "equal to its rectangles, weight 1 / 1.0 / True); 35% carry one injected defect of a listed class at a random "
                 "position (half of them boundary instances); 8% near misses; 7% decimal (oracle only); (c) sizes: documents with "
                 "9..257 (thorough 1001) modules, nets of 9..65 (257) members, 33..101 (1001) nets, 9..65 (161) rectangles in a "
-                "module, names of 32..1000 (4097) characters, 9..33 (101) regions; (d) input forms: half of the new streams are "
+                "module, names of 32..4097 (8193) characters, 9..33 (101) regions; (d) input forms: half of the new streams are "
                 "given as the tree itself, as hand-spelled YAML text (1e3, +2, .5, 0x1F, quoted names, ~) or as the name of a "
                 "file; 15% after a history (other designs with the same module names, the design scaled, a rejected variant, the "
                 "design itself - loaded and written in the same process before) and 8% with the same source loaded twice; "
